@@ -38,31 +38,39 @@ func ruleC13(c *Ctx) {
 	c.useFn(pc)
 	c.useFn(parse)
 	if len(pc.Params) != 2 || !isChanType(pc.Params[1].Type()) {
-		c.bad("CHANLIFE", "ParseConcurrent:signature", pc.Pos(), "ParseConcurrent(r, sequences) signature changed (unrecognised shape)")
+		c.undecided("CHANLIFE", "ParseConcurrent:signature", pc.Pos(), "ParseConcurrent(r, sequences) signature changed (unrecognised shape)")
 		return
 	}
 	out := pc.Params[1]
 	checkCloseOnce(c, "CHANLIFE", pc, out, "sequences")
 	esc := chanEscapes(pc, out, nil)
-	c.check(len(esc) == 0, "CHANLIFE", "no-handoff/sequences", pc.Pos(), "the channel is only sent on and closed inside ParseConcurrent", "channel handed to code this analysis does not follow: "+strings.Join(esc, ", "))
+	c.checkShape(len(esc) == 0, "CHANLIFE", "no-handoff/sequences", pc.Pos(), "the channel is only sent on and closed inside ParseConcurrent", "channel handed to code this analysis does not follow: "+strings.Join(esc, ", "))
 
 	// Parse: go ParseConcurrent(r, ch); range ch; append in order
 	ptb := newTB(parse)
 	gs := goSites(parse, pc)
 	if len(gs) != 1 {
-		c.bad("CHANLIFE", "Parse:go ParseConcurrent", parse.Pos(), fmt.Sprintf("%d go sites, want 1", len(gs)))
+		c.undecided("CHANLIFE", "Parse:go ParseConcurrent", parse.Pos(), fmt.Sprintf("%d go sites, the model needs 1", len(gs)))
 	} else {
 		ch := unwrap(gs[0].Call.Args[1])
 		_, isMake := ch.(*ssa.MakeChan)
-		rt, _, ok := singleReturnTerm(parse, 0)
-		good := false
-		if ok && isMake {
+		st, why := unknown, "Parse does not visibly collect the records received from the parser goroutine"
+		if alts := resultAlts(ptb, parse, 0); len(alts) == 1 && isMake {
 			recv := "extract[0](unop[<-,ok](" + ptb.T(ch).String() + "))"
-			apps := topAppendSites(ptb.T(returnsOf(parse)[0].Results[0]))
-			good = len(apps) == 1 && apps[0].Elem.String() == recv && unwrap(gs[0].Call.Args[0]) == ssa.Value(parse.Params[0])
-			_ = rt
+			apps := topAppendSites(alts[0].T)
+			switch {
+			case len(apps) == 1 && apps[0].Elem.String() == recv && unwrap(gs[0].Call.Args[0]) == ssa.Value(parse.Params[0]):
+				st = holds
+				if entry := loopBodyEntry(apps[0].At.Block()); entry != nil {
+					if pcd := pathCond(ptb, entry, apps[0].At.Block()); pcd.Op != "true" && len(opaqueCond(pcd)) == 0 {
+						st, why = broken, "a received record is kept only under "+short(pcd.String())
+					}
+				}
+			case len(apps) == 1 && apps[0].Elem.String() == recv:
+				why = "the parser goroutine does not read Parse's own reader"
+			}
 		}
-		c.check(good, "CHANLIFE", "Parse:collect until close, in order", gs[0].Pos(), "Parse starts the parser on its reader and appends every received record, in arrival order, until the channel is closed", "Parse does not collect exactly the records received from the parser goroutine in order (unrecognised shape)")
+		c.judge(st, "CHANLIFE", "Parse:collect until close, in order", gs[0].Pos(), "Parse starts the parser on its reader and appends every received record, in arrival order, until the channel is closed", why)
 	}
 	for _, name := range []string{"ReadConcurrent", "ReadGzConcurrent"} {
 		f := w.fn("io/fasta", name)
@@ -71,18 +79,25 @@ func ruleC13(c *Ctx) {
 			continue
 		}
 		c.useFn(f)
-		tb := newTB(f)
+		tb := newDeepTB(f, fname(pc))
 		gs := goSites(f, pc)
-		good := len(gs) == 1
-		if good {
-			rd := tb.T(unwrap(gs[0].Call.Args[0])).String()
+		st, why := unknown, fmt.Sprintf("%d go sites of the parser", len(gs))
+		if len(gs) == 1 {
+			rd := tb.T(unwrap(gs[0].Call.Args[0]))
 			want := "extract[0](call[os.Open](param[0]))"
 			if name == "ReadGzConcurrent" {
 				want = "extract[0](call[compress/gzip.NewReader](extract[0](call[os.Open](param[0]))))"
 			}
-			good = rd == want && unwrap(gs[0].Call.Args[1]) == ssa.Value(f.Params[1])
+			switch {
+			case rd.String() == want && unwrap(gs[0].Call.Args[1]) == ssa.Value(f.Params[1]):
+				st = holds
+			case rd.String() != want && len(opaqueParts(rd, vocabOf(want))) == 0 && localDiff(rd, want):
+				st, why = broken, "the parser reads "+short(rd.String())+"; want "+want
+			default:
+				why = "the parser is started on " + short(rd.String())
+			}
 		}
-		c.check(good, "WRAPPERS", name, f.Pos(), "starts ParseConcurrent as a goroutine on the opened file and the caller's channel", name+" does not start `go ParseConcurrent(<opened file>, sequences)` exactly once")
+		c.judge(st, "WRAPPERS", name, f.Pos(), "starts ParseConcurrent as a goroutine on the opened file and the caller's channel", why)
 	}
 	checkReturnIs(c, "WRAPPERS", "Read", w.fn("io/fasta", "Read"), 0, "call[poly/io/fasta.Parse](extract[0](call[os.Open](param[0])))", "Read(path) = Parse(os.Open(path))")
 	checkReturnIs(c, "WRAPPERS", "ReadGz", w.fn("io/fasta", "ReadGz"), 0, "call[poly/io/fasta.Parse](extract[0](call[compress/gzip.NewReader](extract[0](call[os.Open](param[0])))))", "ReadGz(path) = Parse(gzip.NewReader(os.Open(path)))")
@@ -103,6 +118,7 @@ func ruleC13(c *Ctx) {
 	}
 	checkPrefix(c, "PREFIX", pc)
 	checkNoShared(c, "NOSHARED", "fasta parser", modReach, nil)
+	scannerBytesRetained(c, "SCANCAP", modReach)
 
 	// TERM: Build
 	build := w.fn("io/fasta", "Build")
@@ -110,99 +126,199 @@ func ruleC13(c *Ctx) {
 		c.missing("TERM", "Build", "fasta.Build")
 	} else {
 		c.useFn(build)
-		tb := newTB(build)
-		rt, _, ok := singleReturnTerm(build, 0)
-		var seq []string
-		good := ok && rt.isCall("(*bytes.Buffer).Bytes")
-		if good {
-			buf := rt.Args[0].String()
-			var blk *ssa.BasicBlock
-			eachInstr(build, func(i ssa.Instruction) {
-				if ci, ok := i.(ssa.CallInstruction); ok && strings.HasPrefix(calleeName(ci), "(*bytes.Buffer).Write") && tb.T(ci.Common().Args[0]).String() == buf {
-					seq = append(seq, tb.T(ci.Common().Args[1]).String())
-					if blk == nil {
-						blk = ci.Block()
-					} else if blk != ci.Block() {
-						good = false
-					}
+		checkRecordWriter(c, "TERM", "Build=>Name\\nSequence\\n per record", build, []string{`const[">"]`, "field[Name](each(param[0]))", `const["\n"]`, "field[Sequence](each(param[0]))", `const["\n"]`})
+	}
+	checkFastaRecords(c, pc, out)
+}
+
+// checkRecordWriter: f writes, per element of its first parameter and in order, exactly the wanted pieces.
+func checkRecordWriter(c *Ctx, rule, construct string, f *ssa.Function, want []string) {
+	tb := newDeepTB(f)
+	var rt *Term
+	n := 0
+	for _, a := range resultAlts(tb, f, 0) {
+		if a.T.Op == "const" && strings.HasPrefix(a.T.Name, "nil") {
+			continue // an early "nothing to write" return
+		}
+		rt = a.T
+		n++
+	}
+	if n != 1 {
+		c.undecided(rule, construct, f.Pos(), fmt.Sprintf("%d result alternatives", n))
+		return
+	}
+	ems, why := sinkEmissions(tb, f, rt)
+	if why != "" {
+		c.undecided(rule, construct, f.Pos(), why)
+		return
+	}
+	got, blk, why := perIterationPieces(ems)
+	if why != "" {
+		c.undecided(rule, construct, f.Pos(), why)
+		return
+	}
+	st, why := comparePieces(got, normWant(want))
+	if st == holds {
+		// once per record: the block runs unconditionally in a loop over the records
+		if entry := loopBodyEntry(blk); entry == nil || pathCond(tb, entry, blk).Op != "true" {
+			st, why = unknown, "records are written conditionally"
+			if entry != nil {
+				if pcd := pathCond(tb, entry, blk); len(opaqueCond(pcd)) == 0 {
+					st, why = broken, "a record is written only under "+short(pcd.String())
 				}
-			})
-			want := []string{`const[">"]`, "field[Name](each(param[0]))", `const["\n"]`, "field[Sequence](each(param[0]))", `const["\n"]`}
-			if strings.Join(seq, " ") != strings.Join(want, " ") {
-				good = false
 			}
 		}
-		c.check(good, "TERM", "Build=>Name\\nSequence\\n per record", build.Pos(), "per record, in order: \">\", Name, \"\\n\", Sequence, \"\\n\" into the returned buffer", "Build writes "+short(strings.Join(seq, " "))+"; want >,Name,\\n,Sequence,\\n per record into the returned buffer")
 	}
-	// TERM: parser record contents
-	tb := newTB(pc)
+	c.judge(st, rule, construct, ems[0].At.Pos(), "per record, in order: "+strings.Join(want, ", "), why)
+}
+
+func normWant(want []string) []string {
+	var ts []*Term
+	for _, w := range want {
+		ts = append(ts, parseTerm(w))
+	}
+	return normPieces(ts)
+}
+
+// checkFastaRecords: what the streaming parser sends, decided per class of input line.
+func checkFastaRecords(c *Ctx, pc *ssa.Function, out *ssa.Parameter) {
+	view := newFamView(pc)
+	tb := view.tb[pc]
+	// the line under inspection
+	text := ""
+	view.each(func(g *ssa.Function, i ssa.Instruction) {
+		if cl, ok := i.(*ssa.Call); ok && calleeName(cl) == "(*bufio.Scanner).Text" && g == pc {
+			text = view.T(g, cl).String()
+		}
+	})
 	sends := sendsOn(pc, out)
-	text := "call[(*bufio.Scanner).Text](call[bufio.NewScanner](param[0]))"
-	nameOK, seqOK, appOK := len(sends) > 0, len(sends) > 0, false
-	var whyN, whyS string
+	if text == "" || len(sends) == 0 {
+		c.undecided("TERM", "parser:records", pc.Pos(), "no bufio.Scanner line / no send found in ParseConcurrent")
+		return
+	}
+	classes := []lineClass{{"blank", ""}, {"comment(;)", "; a comment"}, {"header(>)", ">name of record"}, {"data", "ACGTACGT"}, {"data", "A"}}
+	stN, whyN := holds, ""
+	stS, whyS := holds, ""
+	wantName := "slice(" + text + ", const[1], nil)"
+	type accum struct {
+		elems  []appSite
+		resets int
+		key    string
+	}
+	var acc *accum
 	for _, s := range sends {
 		v := tb.T(s.X)
-		var nm, sq *Term
-		for _, a := range v.Args {
-			if a.Op == "partial" && a.Name == ".Name" {
-				nm = a.Args[0]
-			}
-			if a.Op == "partial" && a.Name == ".Sequence" {
-				sq = a.Args[0]
-			}
-		}
+		nm, sq := partialOf(v, "Name"), partialOf(v, "Sequence")
 		if nm == nil || sq == nil {
-			nameOK, seqOK = false, false
-			whyN, whyS = "record is not built field by field", "record is not built field by field"
+			stN, whyN = unknown, "the record sent is not a visible Fasta literal: "+short(v.String())
+			stS, whyS = stN, whyN
 			continue
 		}
-		// name: phi web over {"" , slice(Text,1,nil)}
-		leaves := phiLeaves(nm)
-		for _, l := range leaves {
+		// name: "" before the first header, else the header minus its first byte
+		for _, l := range phiLeaves(nm) {
 			ls := l.String()
-			if ls != `const[""]` && ls != "slice("+text+", const[1], nil)" {
-				nameOK = false
-				whyN = "name may be " + short(ls)
-			}
-		}
-		if !sq.isCall("strings.Join") || !sq.Args[1].isConst(`""`) {
-			seqOK = false
-			whyS = "sequence is " + short(sq.String())
-			continue
-		}
-		sites := topAppendSites(sq.Args[0])
-		if len(sites) != 1 {
-			seqOK = false
-			whyS = fmt.Sprintf("%d places add sequence lines, want 1", len(sites))
-		}
-		for _, st := range sites {
-			if st.Elem.String() != text {
-				seqOK = false
-				whyS = "a line is transformed before being collected: " + short(st.Elem.String())
+			if ls == `const[""]` || ls == wantName {
 				continue
 			}
-			pcs := pathCond(tb, pc.Blocks[0], st.At.Block())
-			lenz := "binop[==](call[builtin:len](" + text + "), const[0])"
-			semi := `binop[==](const[";"], slice(` + text + `, const[0], const[1]))`
-			gt := `binop[!=](const[">"], slice(` + text + `, const[0], const[1]))`
-			if pcs.implies(lenz, true) && pcs.implies(semi, true) && pcs.implies(gt, false) {
-				appOK = true
-			} else {
-				whyS = "lines are collected under " + short(pcs.String())
+			st := unknown
+			if len(opaqueParts(l, vocabOf(wantName, "const[0]"))) == 0 && localDiff(l, wantName) {
+				st = broken
+			}
+			if stN == holds || st == broken {
+				stN, whyN = st, "a record's name may be "+short(ls)+"; want the header line minus its first byte, unchanged"
 			}
 		}
-		for _, l := range phiLeaves(sq.Args[0]) {
-			ls := l.String()
-			if !(l.Op == "collect" || l.isCall("builtin:append") || strings.HasPrefix(ls, "const[nil:") || strings.HasPrefix(ls, "slice(zero[")) {
-				seqOK = false
-				whyS = "sequence lines may come from " + short(ls)
+		// sequence accumulator
+		a := &accum{}
+		switch {
+		case sq.isCall("strings.Join"):
+			sep, isC := sq.Args[1].constStr()
+			if isC && sep != "" {
+				stS, whyS = broken, fmt.Sprintf("sequence lines are joined with %q; wrapped sequences come back with that separator inside", sep)
+				continue
+			}
+			if !isC {
+				stS, whyS = unknown, "join separator "+short(sq.Args[1].String())
+				continue
+			}
+			a.elems = topAppendSites(sq.Args[0])
+			a.key = "list"
+		case sq.isCall("(*strings.Builder).String") || sq.isCall("(*bytes.Buffer).String"):
+			recv := sq.Args[0].String()
+			for _, wr := range bufWrites(pc, tb, recv) {
+				a.elems = append(a.elems, appSite{Elem: wr.arg, At: wr.call})
+			}
+			a.key = recv
+		default:
+			if stS == holds {
+				stS, whyS = unknown, "sequence is "+short(sq.String())
+			}
+			continue
+		}
+		if len(a.elems) == 0 {
+			if stS == holds {
+				stS, whyS = unknown, "no place adds sequence lines"
+			}
+			continue
+		}
+		acc = a
+		for _, e := range a.elems {
+			if e.Elem.String() != text {
+				st := unknown
+				if len(opaqueParts(e.Elem, vocabOf(text))) == 0 && localDiff(e.Elem, text) {
+					st = broken
+				}
+				if stS == holds || st == broken {
+					stS, whyS = st, "a line is transformed before being collected: "+short(e.Elem.String())+"; the sequence must be the raw lines"
+				}
+				continue
+			}
+			pcs := view.cond(pc, e.At.Block())
+			for _, cl := range classes {
+				v, known := classEval(pcs, text, cl)
+				switch {
+				case cl.Name == "data" && known && !v:
+					stS, whyS = broken, "ordinary sequence lines are never collected ("+classTable(pcs, text, classes)+")"
+				case cl.Name != "data" && known && v:
+					stS, whyS = broken, "a "+cl.Name+" line is collected as sequence ("+classTable(pcs, text, classes)+")"
+				case cl.Name != "data" && !known && stS == holds:
+					stS, whyS = unknown, "whether a "+cl.Name+" line is collected depends on "+short(pcs.String())
+				}
 			}
 		}
 	}
-	c.check(nameOK, "TERM", "parser:name=header[1:]", pc.Pos(), "record name is the header line minus its first byte", whyN)
-	c.check(seqOK && appOK, "TERM", "parser:sequence=Join(raw lines,\"\")", pc.Pos(), "sequence = strings.Join of the unmodified non-blank, non-';', non-'>' lines, separator \"\"", whyS)
-	// a record is sent per header (not first) and once after the loop
-	c.check(len(sends) == 2, "TERM", "parser:one send per header + final", pc.Pos(), "one send in the loop (on a later header) and one after the loop", fmt.Sprintf("%d send sites, want 2", len(sends)))
+	c.judge(stN, "TERM", "parser:name=header[1:]", pc.Pos(), "record name is the header line minus its first byte", whyN)
+	c.judge(stS, "TERM", "parser:sequence=Join(raw lines,\"\")", pc.Pos(), "sequence = concatenation of the unmodified lines that are not blank, not ';' comments and not headers", whyS)
+	// sends: one in the loop on a header, one after the loop, unconditional with respect to what was collected
+	stE, whyE := holds, ""
+	nLoop, nFinal := 0, 0
+	for _, s := range sends {
+		pcs := view.cond(pc, s.Block())
+		if inLoop(s.Block()) {
+			nLoop++
+			for _, cl := range classes {
+				v, known := classEval(pcs, text, cl)
+				if cl.Name != "header(>)" && known && v {
+					stE, whyE = broken, "a record is sent on a "+cl.Name+" line ("+classTable(pcs, text, classes)+")"
+				}
+				if cl.Name == "header(>)" && known && !v {
+					stE, whyE = broken, "no record is sent when a new header arrives ("+classTable(pcs, text, classes)+")"
+				}
+			}
+			continue
+		}
+		nFinal++
+		for _, at := range pcs.atoms() {
+			as := at.Atom.String()
+			if acc != nil && (strings.Contains(as, "call[builtin:len](") && at.Atom.contains(func(x *Term) bool { return x.Op == "collect" || x.isCall("builtin:append") }) || strings.Contains(as, ").Len]("+acc.key)) {
+				stE, whyE = broken, "the last record is sent only under "+short(pcs.String())+": a final record whose sequence is empty is dropped"
+			}
+		}
+	}
+	if stE == holds && (nLoop != 1 || nFinal != 1) {
+		stE, whyE = unknown, fmt.Sprintf("%d send sites in the loop, %d after it", nLoop, nFinal)
+	}
+	c.judge(stE, "TERM", "parser:one send per header + final", pc.Pos(), "one send in the loop (on a later header) and one after the loop", whyE)
 }
 
 // phiLeaves flattens phi/anyof nodes, dropping rec markers.
